@@ -46,6 +46,16 @@ def run(tier, seed):
             fn = getattr(b, name)
             log.add("same", "beat." + name, call(fn, ra, ea, **kw), call(fn, ra + d, ea + d, **kw),
                     {"what": "shift", "d": d, "ref": ra.tolist(), "est": ea.tolist()})
+        # regular beats with the estimate displaced to the EDGE of the P-score / continuity / Goto windows, shifted by amounts
+        # that are not multiples of the 10 ms P-score grid (dyadic, so the shift itself is exact; seeded C08r6-B)
+        per = rng.choice([0.5, 0.625, 0.75])
+        rb = 10.0 + per * np.arange(rng.randint(6, 12))
+        eb = rb + rng.choice([5, 6, 7, 8, 9, 10, 11]) / 64.0 * (per / 0.5)
+        d2 = rng.choice([1, 3, 9, 21, 37]) / 64.0 + rng.choice([0.0, 2.0])
+        for name in ("p_score", "cemgil", "goto", "continuity", "information_gain", "f_measure", "evaluate"):
+            fn = getattr(b, name)
+            log.add("same", "beat." + name, call(fn, rb, eb), call(fn, rb + d2, eb + d2),
+                    {"what": "shift", "d": d2, "ref": rb.tolist(), "est": eb.tolist(), "family": "window edge, off-grid shift"})
         oa, ob = gen.gen_events(rng, shape)
         log.add("same", "onset.evaluate", call(me.onset.evaluate, oa, ob, window=0.125), call(me.onset.evaluate, oa + d, ob + d, window=0.125),
                 {"what": "shift", "d": d, "ref": oa.tolist(), "est": ob.tolist()})
@@ -135,6 +145,15 @@ def run(tier, seed):
         e2 = np.array([tref[0] * rng.choice([1.0, 1.05, 0.93, 1.09]), tref[1] * rng.choice([1.0, 1.03, 0.95, 1.1])]) if tref[1] > 0 else test
         log.add("same", "tempo.detection", call(me.tempo.detection, tref, tw, e2), call(me.tempo.detection, tref, tw, e2[::-1].copy()),
                 {"what": "swap the two estimated tempi", "ref": tref.tolist(), "weight": tw, "est": e2.tolist()})
+        # two NEARBY reference tempi and two estimates exactly equidistant from one of them, only one of which is also
+        # inside the other reference's window (any order-dependent crediting of estimates shows here; seeded C08r6-A)
+        ta = float(rng.choice([80, 100, 120, 160]))
+        tb = ta * rng.choice([1.1, 1.05, 0.9, 0.95])
+        td = ta * rng.choice([0.04, 0.05, 0.0625, 0.025])
+        for tr3, e3 in ((np.array([ta, tb]), np.array([ta - td, ta + td])), (np.array([tb, ta]), np.array([ta - td, ta + td]))):
+            for tol in (0.08, 0.0625):
+                log.add("same", "tempo.detection", call(me.tempo.detection, tr3, tw, e3, tol=tol), call(me.tempo.detection, tr3, tw, e3[::-1].copy(), tol=tol),
+                        {"what": "swap the two estimated tempi", "family": "equidistant", "ref": tr3.tolist(), "weight": tw, "est": e3.tolist(), "tol": tol})
         if pr and pe and len(pr) > 1:
             q = list(range(len(pr))); rng.shuffle(q)
             prp = [pr[i] for i in q]
